@@ -15,8 +15,8 @@ BUILD = ROOT / 'build'
 NCPU = int(os.environ.get('VERIF_JOBS', '16'))
 
 ASAN_FLAGS = ['-g', '-O1', '-fsanitize=address,undefined', '-fno-sanitize-recover=undefined', '-fno-omit-frame-pointer']
-ASAN_ENV = {'ASAN_OPTIONS': 'detect_leaks=0:abort_on_error=0:allocator_may_return_null=1:handle_abort=1',
-            'UBSAN_OPTIONS': 'print_stacktrace=1:halt_on_error=1'}
+ASAN_ENV = {'ASAN_OPTIONS': 'detect_leaks=0:abort_on_error=0:allocator_may_return_null=1:handle_abort=1:exitcode=86',
+            'UBSAN_OPTIONS': 'print_stacktrace=1:halt_on_error=1:exitcode=86'}
 
 
 def sha(*parts):
